@@ -71,6 +71,7 @@ struct World {
     table: Table,
     sources: HashMap<u64, Arc<Source>>,
     attrs: HashMap<u64, Arc<Vec<Attribute>>>,
+    origs: HashMap<u64, Arc<Vec<Attribute>>>,
     ctrs: HashMap<u64, Arc<AtomicU64>>,
     families: Vec<Family>,
 }
@@ -138,13 +139,22 @@ impl World {
         let llgr = v.at(6).bool();
         let nollgr = v.at(7).bool();
         if llgr || nollgr {
+            // the position of the well-known communities in the list varies with the
+            // token: after an ordinary community, before it, or alone
             let mut bin = Vec::new();
-            bin.extend_from_slice(&0xfde8_0001u32.to_be_bytes());
+            let lay = tok % 3;
+            if lay == 0 {
+                bin.extend_from_slice(&0xfde8_0001u32.to_be_bytes());
+            }
             if llgr {
                 bin.extend_from_slice(&0xffff_0006u32.to_be_bytes());
             }
             if nollgr {
                 bin.extend_from_slice(&0xffff_0007u32.to_be_bytes());
+            }
+            if lay == 1 {
+                bin.extend_from_slice(&0xfde8_0001u32.to_be_bytes());
+                bin.extend_from_slice(&0xffff_0001u32.to_be_bytes());
             }
             out.push(Attribute::new_with_bin(Attribute::COMMUNITY, bin).unwrap());
         }
@@ -158,11 +168,53 @@ impl World {
             }
             out.push(Attribute::new_with_bin(Attribute::CLUSTER_LIST, bin).unwrap());
         }
+        // MAC mobility extended community in every layout (token mod 4): after an unrelated
+        // community, before one, alone with the sticky flag, followed by a second MAC mobility
+        // community with another sequence number (the first one counts)
+        let unrelated = [0x03u8, 0x0c, 0, 0, 0, 0, 0, 8];
         if let Some(mm) = v.at(8).list().first() {
-            let mut bin = vec![0x03, 0x0c, 0, 0, 0, 0, 0, 8]; // an unrelated extended community first
-            bin.extend_from_slice(&[0x06, 0x00, 0x00, 0x00]);
-            bin.extend_from_slice(&mm.u32().to_be_bytes());
+            let seq = mm.u32();
+            let mut bin = Vec::new();
+            match tok % 4 {
+                0 => {
+                    bin.extend_from_slice(&unrelated);
+                    bin.extend_from_slice(&[0x06, 0x00, 0x00, 0x00]);
+                    bin.extend_from_slice(&seq.to_be_bytes());
+                }
+                1 => {
+                    bin.extend_from_slice(&[0x06, 0x00, 0x00, 0x00]);
+                    bin.extend_from_slice(&seq.to_be_bytes());
+                    bin.extend_from_slice(&unrelated);
+                }
+                2 => {
+                    bin.extend_from_slice(&[0x06, 0x00, 0x01, 0x00]);
+                    bin.extend_from_slice(&seq.to_be_bytes());
+                }
+                _ => {
+                    bin.extend_from_slice(&[0x06, 0x00, 0x00, 0x00]);
+                    bin.extend_from_slice(&seq.to_be_bytes());
+                    bin.extend_from_slice(&[0x06, 0x00, 0x00, 0x00]);
+                    bin.extend_from_slice(&(seq ^ 0x8000_0001).to_be_bytes());
+                    // a look-alike: type 0x06 with another subtype
+                    bin.extend_from_slice(&[0x06, 0x01, 0, 0, 0xff, 0xff, 0xff, 0xff]);
+                }
+            }
             out.push(Attribute::new_with_bin(Attribute::EXTENDED_COMMUNITY, bin).unwrap());
+        } else if tok % 4 == 3 {
+            // extended communities present, none of them MAC mobility (a look-alike subtype)
+            let mut bin = Vec::new();
+            bin.extend_from_slice(&unrelated);
+            bin.extend_from_slice(&[0x06, 0x01, 0, 0, 0xff, 0xff, 0xff, 0xff]);
+            out.push(Attribute::new_with_bin(Attribute::EXTENDED_COMMUNITY, bin).unwrap());
+        }
+        // the attributes as received (original_attr) when import policy replaced the block:
+        // another allocation, named by its own token
+        if v.list().len() > 9 && v.at(9).u64() != tok {
+            let mut pre = out.clone();
+            pre.push(Attribute::new_with_value(Attribute::MULTI_EXIT_DESC, 7).unwrap());
+            let o = Arc::new(pre);
+            self.attrs.insert(v.at(9).u64(), o.clone());
+            self.origs.insert(tok, o);
         }
         let a = Arc::new(out);
         self.attrs.insert(tok, a.clone());
@@ -290,6 +342,66 @@ impl World {
             }
             rs.push(Val::L(vec![Val::n(*a), Val::L(per)]));
         }
+        // read-only views
+        let mut lim = Vec::new();
+        for m in [1usize, 2] {
+            let mut l = Vec::new();
+            for f in &self.families {
+                for c in self.table.collect_loc_rib_paths_limited(f, m) {
+                    let paths: Vec<Val> = c.current_paths.iter().map(|p| self.path_val(p)).collect();
+                    l.push(Val::L(vec![Val::n(net_of(&c.net)), Val::L(paths)]));
+                }
+            }
+            lim.push(Val::L(l));
+        }
+        let mut adj = Vec::new();
+        for a in addrs {
+            let ip = addr_of(*a);
+            let mut per = Vec::new();
+            for f in &self.families {
+                let mut views: Vec<HashMap<u64, Vec<Val>>> = Vec::new();
+                for flt in [false, true] {
+                    let mut m: HashMap<u64, Vec<Val>> = HashMap::new();
+                    for d in self.table.destinations(TableQuery::AdjIn(ip), *f, vec![], flt) {
+                        let ps = d
+                            .paths
+                            .iter()
+                            .map(|p| {
+                                Val::L(vec![
+                                    Val::n(p.remote_path_id),
+                                    self.src_tok(&p.source),
+                                    self.attr_tok(&p.attr),
+                                    Val::b(p.filtered),
+                                ])
+                            })
+                            .collect();
+                        m.insert(net_of(&d.net), ps);
+                    }
+                    views.push(m);
+                }
+                for stale in [false, true] {
+                    let mut m: HashMap<u64, Vec<Val>> = HashMap::new();
+                    for (_fam, net, rpid, nh, src, _attr, _ts) in self.table.collect_adj_in_paths(ip, Some(*f), stale) {
+                        m.entry(net_of(&net)).or_default().push(Val::L(vec![
+                            Val::n(rpid),
+                            self.src_tok(&src),
+                            Val::opt(nh.map(|n| nh_val(&n))),
+                            self.attr_tok(&_attr),
+                        ]));
+                    }
+                    views.push(m);
+                }
+                for d in self.table.destinations(TableQuery::Global, *f, vec![], true) {
+                    let n = net_of(&d.net);
+                    let mut rec = vec![Val::n(n)];
+                    for v in &views {
+                        rec.push(Val::L(v.get(&n).cloned().unwrap_or_default()));
+                    }
+                    per.push(Val::L(rec));
+                }
+            }
+            adj.push(Val::L(vec![Val::n(*a), Val::L(per)]));
+        }
         Val::L(vec![
             Val::L(loc),
             Val::L(dests),
@@ -298,6 +410,7 @@ impl World {
             Val::L(cv),
             Val::b(false),
             Val::L(rs),
+            Val::L(vec![lim[0].clone(), lim[1].clone(), Val::L(adj)]),
         ])
     }
 }
@@ -328,6 +441,7 @@ fn run_rib_case(case: &Val) -> Val {
         table: Table::new(shard),
         sources: HashMap::new(),
         attrs: HashMap::new(),
+        origs: HashMap::new(),
         ctrs: HashMap::new(),
         families: vec![fam],
     };
@@ -350,7 +464,7 @@ fn run_rib_case(case: &Val) -> Val {
                     l[3].u32(),
                     l[4].list().first().map(|n| nh_of(n.u64())),
                     a,
-                    None,
+                    w.origs.get(&l[5].at(0).u64()).cloned(),
                     l[6].bool(),
                     l[7].bool(),
                     lim.as_ref().map(|(m, c)| (*m, c)),
